@@ -55,6 +55,23 @@ package keeper
 //@   requires n >= 0
 //@   ensures sumRem(store(row, pos, v), d, n) == sumRem(row, d, n) + ((0 <= pos && pos < n) ? v[d] - row[pos][d] : 0)
 //@   prop C03
+//@ // every recorded remainder of denom d among the first n states is non-negative
+//@ spec func rowNonNeg(row [int][str]int, d str, n int) bool = n <= 0 ? true : (rowNonNeg(row, d, n - 1) && row[n - 1][d] >= 0)
+//@ lemma sumRemNonNeg(row [int][str]int, d str, n int)
+//@   induction n
+//@   requires n >= 0 && rowNonNeg(row, d, n)
+//@   ensures sumRem(row, d, n) >= 0
+//@   prop C03
+//@ lemma rowNonNegStore(row [int][str]int, d str, n int, pos int, v [str]int)
+//@   induction n
+//@   requires n >= 0 && rowNonNeg(row, d, n) && v[d] >= 0
+//@   ensures rowNonNeg(store(row, pos, v), d, n)
+//@   prop C03
+//@ lemma rowNonNegAt(row [int][str]int, d str, n int, pos int)
+//@   induction n
+//@   requires 0 <= pos && pos < n && rowNonNeg(row, d, n)
+//@   ensures row[pos][d] >= 0
+//@   prop C03
 //@ pred statesHaveAccounts(s) = forall k: int :: {s[k].Account} 0 <= k && k < len(s) ==> s[k].Account != nil
 //@ func findAccountState(states, account) (pos)
 //@   requires states != nil && account != nil && statesHaveAccounts(*states)
@@ -124,6 +141,61 @@ package keeper
 //@   invariant forall d: str :: {defaultShare[d]} defaultShare[d] * P + wsumOf(coinsToDistributeDec[d], subDistributor.Destinations, \i) >= coinsToDistributeDec[d] * P
 //@   uses forall d: str :: {coinsToDistributeDec[d]} wsumBoundOf(coinsToDistributeDec[d], subDistributor.Destinations, \i + 1, 0)
 //@   uses forall d: str :: {coinsToDistributeDec[d]} wsumStep(coinsToDistributeDec[d], elemRow(subDistributor.Destinations.Shares), heapOf("types.DestinationShare", "Share"), off(subDistributor.Destinations.Shares), \i + 1)
+
+//@ // ---- collecting a sub-distributor's inflow (C03 / C14): "unbooked" = what the main account holds beyond the recorded remains ----
+//@ pred remRow(s) = fieldRow(s, "Remains")
+//@ pred unbooked(s, d) = $bal[MAIN()][d] * P - sumRem(remRow(s), d, len(s))
+//@ pred remainsNonNeg(s) = forall d: str :: {rowNonNeg(remRow(s), d, len(s))} rowNonNeg(remRow(s), d, len(s))
+//@ func getRamainsSum(states) (sum)
+//@   requires states != nil && off(*states) == 0
+//@   ensures forall d: str :: {sum[d]} sum[d] == sumRem(remRow(*states), d, len(*states))
+//@   prop C03 C10
+//@ loop getRamainsSum#1
+//@   invariant 0 <= \i && \i <= len(*states)
+//@   invariant forall d: str :: {sum[d]} sum[d] == sumRem(remRow(*states), d, \i)
+//@ func (k Keeper) prepareCoinToDistributeForMainAccount(ctx, states, subDistributorName) (res)
+//@   requires off(states) == 0
+//@   // the books never exceed the balance (C03's invariant; without it the subtraction below panics and halts the chain)
+//@   requires forall d: str :: {$bal[MAIN()][d]} unbooked(states, d) >= 0 && $bal[MAIN()][d] >= 0
+//@   requires remainsNonNeg(states)
+//@   uses forall d: str :: {$bal[MAIN()][d]} sumRemNonNeg(remRow(states), d, len(states))
+//@   ensures forall d: str :: {res[d]} res[d] == unbooked(states, d)
+//@   prop C03 C10
+
+//@ // a source sweep either moves the source's whole balance to the main account and reports it, or fails, moves nothing and reports nothing (C14)
+//@ pred sweptAll(src, res) = (forall d: str :: {res[d]} res[d] == old($bal[src][d]) * P)
+//@   && (forall d: str :: {$bal[src][d]} $bal[src][d] == 0)
+//@   && (forall d: str :: {$bal[MAIN()][d]} $bal[MAIN()][d] == old($bal[MAIN()][d]) + old($bal[src][d]))
+//@   && (forall a: str :: {$bal[a]} a != MAIN() && a != src ==> $bal[a] == old($bal[a]))
+//@ func (k Keeper) prepareCoinToDistributeForModuleAccount(ctx, source, subDistributorName) (res)
+//@   requires modaddr(source.Id) != MAIN()
+//@   panic_requires moduleExists(source.Id)
+//@   modifies $bal, $accTag, $accSeq, $accPub
+//@   ensures existingAccountsUntouched() && $supply == old($supply)
+//@   ensures (res == zeroCoins() && $bal == old($bal)) || sweptAll(modaddr(source.Id), res)
+//@   ensures forall d: str :: {res[d]} res[d] >= 0
+//@   prop C14 C03 C10
+//@ func (k Keeper) prepareCoinToDistributeForBaseAccount(ctx, source, subDistributorName) (res)
+//@   requires fromBech32(source.Id) != MAIN()
+//@   // a base-account source id was validated to be a bech32 address (Account.Validate)
+//@   requires bech32ok(source.Id)
+//@   modifies $bal, $accTag, $accSeq, $accPub
+//@   ensures existingAccountsUntouched() && $supply == old($supply)
+//@   ensures (res == zeroCoins() && $bal == old($bal)) || sweptAll(fromBech32(source.Id), res)
+//@   ensures forall d: str :: {res[d]} res[d] >= 0
+//@   prop C14 C03 C10
+//@ // the source's own queued remains are re-queued into the inflow: the states' total drops by exactly what the inflow gains
+//@ func prepareLeftCoinToDistribute(coinsToDistribute, source, states) (res)
+//@   requires off(states) == 0 && statesHaveAccounts(states) && remainsNonNeg(states)
+//@   requires forall d: str :: {coinsToDistribute[d]} coinsToDistribute[d] >= 0
+//@   modifies elems(states)
+//@   uses forall row: [int][str]int, pos: int, v: [str]int, d: str, n: int :: {sumRem(store(row, pos, v), d, n)} sumRemStore(row, d, n, pos, v)
+//@   uses forall row: [int][str]int, pos: int, v: [str]int, d: str, n: int :: {rowNonNeg(store(row, pos, v), d, n)} rowNonNegStore(row, d, n, pos, v)
+//@   uses forall pos: int, d: str :: {remRow(states)[pos][d]} rowNonNegAt(remRow(states), d, len(states), pos)
+//@   ensures statesHaveAccounts(states) && remainsNonNeg(states)
+//@   ensures forall d: str :: {res[d]} res[d] + sumRem(remRow(states), d, len(states)) == coinsToDistribute[d] + old(sumRem(remRow(states), d, len(states)))
+//@   ensures forall d: str :: {res[d]} res[d] >= coinsToDistribute[d]
+//@   prop C03 C14 C10
 
 //@ // ---- C13: only governance changes the parameters; what is stored was validated; a rejected update changes nothing ----
 //@ spec func dpKey() str = global("types.ParamsKey")
